@@ -266,6 +266,10 @@ def _defects():
         ("SAssignV", False, "OpSet", x3, ("VMv", 1, ("MProd", 1, A, A), ("VScale", 2, x3))))
     add("proxy:column(temporary):does-not-compile", "column(m,j) for an rvalue m calls column(lvalue&) which is not viable: column(trans(B),1) does not compile",
         ("__cxx__", "v2 = column(trans(m1),1);", ("SAssignV", False, "OpSet", z2, ("VCol", ("MTrans", B), 1))))
+    add("crash:A+f(B,C):mixed-orientation", "matrix_addition whose right operand is a matrix_binary with one row-major and one column-major operand (R = S + S*trans(M)) segfaults",
+        ("SAssignM", False, "OpSet", A, ("MAdd", A, ("MBin", "BMul", A, ("MTrans", A)))))
+    add("cblas:integer-prod(scalar_matrix,scalar_matrix):does-not-compile", "with -DREMORA_USE_CBLAS the gemm binding is selected for value type long when both operands are scalar_matrix",
+        ("SAssignM", False, "OpSet", N, ("MProd", 1, ("MConst", 2, 3, 2), ("MConst", 3, 2, 2))), "long_cblas")
     add("assign:noalias*=:unit_vector-rhs", "noalias(x) *= (sparse-like right-hand side such as unit_vector): only the non-zero positions are multiplied, the others keep their value instead of becoming 0",
         ("SAssignV", True, "OpMul", x4, ("VUnit", 4, 2, 3)))
     return decls, D
@@ -375,7 +379,8 @@ def main():
         vt = "long" if i % 2 == 0 else "double"
         g = G.Gen(random.Random(ck.rng.getrandbits(48)), integer_div=(vt == "long"))
         stmts = g.program(150 if thorough else 110)
-        shards.append((Program(g.decls, g.orient, stmts, "shard%d" % i), [vt, vt + "_cblas"]))
+        # CBLAS only matters for floating point; long + REMORA_USE_CBLAS is exercised in the defect stream
+        shards.append((Program(g.decls, g.orient, stmts, "shard%d" % i), [vt] if vt == "long" else [vt, vt + "_cblas"]))
         for k, v in g.stats.items(): stats[k] = stats.get(k, 0) + v
     # compile all variants of all shards in parallel (4 jobs) before the sequential comparison
     from concurrent.futures import ThreadPoolExecutor
@@ -384,7 +389,14 @@ def main():
     for prog, vs in shards:
         nev += check_program(ck, model, prog, vs, "main-stream")
         samples.append([G.Cxx(random.Random(7)).stmt(s) for s in prog.stmts[-3:]])
-    nev += sparse_stream(ck, model, random.Random(ck.rng.getrandbits(48)), 60 if thorough else 30)
+    # sparse stream: NOT ENABLED.  Probes show that on the unchanged tree `compressed_matrix = dense matrix`
+    # (sparse.hpp:243) and `dense = compressed_vector + dense` do not compile and compressed containers have no
+    # element access for printing, so a meaningful sparse grammar needs more work than this round allowed;
+    # sparse_stream() is kept as the starting point.  Set C01_SPARSE=1 to try it.
+    if os.environ.get("C01_SPARSE"):
+        nev += sparse_stream(ck, model, random.Random(ck.rng.getrandbits(48)), 60 if thorough else 30)
+    else:
+        ck.rng.getrandbits(48)
     nev += defects_stream(ck)
     # corpus
     cdir = os.path.join(ROOT, "corpus", PID)
